@@ -73,9 +73,12 @@ def run_case(seed):
         desc = dict(seed=seed, fsel=repr(fsel), level=lv, meta=pf.meta, fields=keys)
         orders = [('identity', 0), ('reverse', 0), ('random', seed + k), ('rotate', k)]
         seqs = []
+        # half of the cases iterate ONE stream object again and again (every iteration must yield every box)
+        shared = pck[fsel][lv] if k % 2 == 1 else None
+        count(f"stream object reused={shared is not None}")
         for order, s in orders:
             core.set_policy(order, s)
-            impl = core.outcome(lambda: [gen.arr_canon(a) for a in pck[fsel][lv]])
+            impl = core.outcome(lambda: [gen.arr_canon(a) for a in (shared if shared is not None else pck[fsel][lv])])
             out['evals'] += 1
             count(f"schedule={order}")
             ires = impl[1] if impl[0] == 'ok' else None
